@@ -23,6 +23,7 @@ QUICK = [
     ("multi_tick_vs_remove", True, False, [["tick"], ["mp_remove"]]),
     ("multi_remove_vs_finish_ticker", True, True, [["finish"], ["mp_remove"]]),
     ("multi_remove_println_mpprintln", True, False, [["mp_remove"], ["println"], ["mp_println"]]),
+    ("fast_ticker_vs_update", False, False, [["enable_fast", "update"], ["tick", "finish"]]),
     ("multi_insert_after_vs_tick", True, False, [["mp_insert_after"], ["tick"]]),
     ("multi_insert_after_vs_finish_ticker", True, True, [["finish"], ["mp_insert_after"]]),
 ]
@@ -59,7 +60,7 @@ def one_program(pid, tier, name, multi, tk, callers, order="KS"):
     mod = "MC_Sync_%s" % re.sub(r"[^A-Za-z0-9_]", "_", name)
     with open(os.path.join(wd, mod + ".tla"), "w") as f:
         f.write("---- MODULE %s ----\nEXTENDS Sync\nProgramsDef == %s\n====\n" % (mod, tla_seq(callers)))
-    nen = sum(c.count("enable") for c in callers) + (1 if tk else 0)
+    nen = sum(c.count("enable") + c.count("enable_fast") for c in callers) + (1 if tk else 0)
     cfg = ("SPECIFICATION Spec\nCONSTANTS\n Programs <- ProgramsDef\n Multi = %s\n InitTicker = %s\n UpdateOrder = \"%s\"\n MaxTickers = %d\n"
            "VIEW View\nINVARIANT NoDeadlock\nINVARIANT NoTimeoutDependence\nINVARIANT SlotOK\nINVARIANT LocksOK\nINVARIANT CleanEnd\nCHECK_DEADLOCK FALSE\n"
            % ("TRUE" if multi else "FALSE", "TRUE" if tk else "FALSE", order, max(1, nen)))
@@ -94,7 +95,7 @@ def conformance(pid, models, runs):
         mod = "MC_SyncConf_%s" % re.sub(r"[^A-Za-z0-9_]", "_", name)
         with open(os.path.join(wd, mod + ".tla"), "w") as f:
             f.write("---- MODULE %s ----\nEXTENDS Trace_SyncConf\nProgramsDef == %s\n====\n" % (mod, tla_seq(m["callers"])))
-        nen = sum(c.count("enable") for c in m["callers"]) + (1 if m["tk"] else 0)
+        nen = sum(c.count("enable") + c.count("enable_fast") for c in m["callers"]) + (1 if m["tk"] else 0)
         with open(os.path.join(wd, mod + ".cfg"), "w") as f:
             f.write("SPECIFICATION ConfSpec\nCONSTANTS\n Programs <- ProgramsDef\n Multi = %s\n InitTicker = %s\n UpdateOrder = \"KS\"\n MaxTickers = %d\n"
                     "POSTCONDITION ConfPost\nCHECK_DEADLOCK FALSE\n" % ("TRUE" if m["multi"] else "FALSE", "TRUE" if m["tk"] else "FALSE", max(1, nen)))
